@@ -837,7 +837,7 @@ class RefQuals:
                 self.m[ascii_lower(k)] = u(2)
                 return "."
             return "PANIC"
-        if n in ("tfi", "cf"):
+        if n in ("tfi", "cf", "tfih"):
             new = {}
             args = a[1:]
             for i in range(0, len(args) - 1, 2):
